@@ -9,19 +9,18 @@ namespace Hdl21.Dfs
 
 variable {α : Type} [DecidableEq α]
 
-mutual
-  /-- `follow(p, group)` -/
-  def dfs (nbrs : α → List α) : Nat → α → List α → Option (List α)
-    | 0, _, _ => none
-    | fuel + 1, p, g => if p ∈ g then some g else dfsList nbrs fuel (nbrs p) (g ++ [p])
-  /-- `for q in neighbours: follow(q, group)` -/
-  def dfsList (nbrs : α → List α) : Nat → List α → List α → Option (List α)
-    | _, [], g => some g
-    | fuel, q :: rest, g =>
-      match dfs nbrs fuel q g with
-      | none => none
-      | some g' => dfsList nbrs fuel rest g'
-end
+/-- `for q in neighbours: follow(q, group)`, for a given way `f` of following one -/
+def dfsList (f : α → List α → Option (List α)) : List α → List α → Option (List α)
+  | [], g => some g
+  | q :: rest, g =>
+    match f q g with
+    | none => none
+    | some g' => dfsList f rest g'
+
+/-- `follow(p, group)` -/
+def dfs (nbrs : α → List α) : Nat → α → List α → Option (List α)
+  | 0, _, _ => none
+  | fuel + 1, p, g => if p ∈ g then some g else dfsList (dfs nbrs fuel) (nbrs p) (g ++ [p])
 
 /-- reachability through neighbours -/
 inductive Reach (nbrs : α → List α) : α → α → Prop
@@ -50,61 +49,62 @@ structure SpecList (nbrs : α → List α) (qs : List α) (g g' : List α) : Pro
   sound : ∀ x, x ∈ g' → x ∈ g ∨ ∃ q, q ∈ qs ∧ Reach nbrs q x
   closed : ∀ x, x ∈ g' → x ∉ g → ∀ y, y ∈ nbrs x → y ∈ g'
 
-mutual
-  theorem dfs_spec (nbrs : α → List α) : ∀ (fuel : Nat) (p : α) (g g' : List α), dfs nbrs fuel p g = some g' → Spec nbrs p g g'
-    | 0, _, _, _, h => by simp [dfs] at h
-    | fuel + 1, p, g, g', h => by
-      rw [dfs] at h
-      split at h
-      · rename_i hp
-        injection h with h; subst h
-        exact ⟨fun x hx => hx, hp, fun x hx => Or.inl hx, fun x hx hnx => absurd hx hnx⟩
-      · rename_i hp
-        have hl := dfsList_spec nbrs fuel (nbrs p) (g ++ [p]) g' h
-        refine ⟨fun x hx => hl.mono x (List.mem_append_left _ hx), hl.mono p (by simp), ?_, ?_⟩
-        · intro x hx
-          rcases hl.sound x hx with h1 | ⟨q, hq, hr⟩
-          · rcases List.mem_append.mp h1 with h2 | h2
-            · exact Or.inl h2
-            · simp at h2; subst h2; exact Or.inr (.refl x)
-          · exact Or.inr (.step hq hr)
-        · intro x hx hnx y hy
-          by_cases hxp : x = p
-          · subst hxp; exact hl.all y hy
-          · have : x ∉ g ++ [p] := by
-              intro hm
-              rcases List.mem_append.mp hm with h2 | h2
-              · exact hnx h2
-              · simp at h2; exact hxp h2
-            exact hl.closed x hx this y hy
-  theorem dfsList_spec (nbrs : α → List α) : ∀ (fuel : Nat) (qs : List α) (g g' : List α), dfsList nbrs fuel qs g = some g' → SpecList nbrs qs g g'
-    | _, [], g, g', h => by
-      simp only [dfsList] at h; injection h with h; subst h
-      exact ⟨(fun x hx => hx), (fun q hq => by cases hq), (fun x hx => Or.inl hx), (fun x hx hnx => absurd hx hnx)⟩
-    | fuel, q :: rest, g, g', h => by
-      rw [dfsList] at h
-      cases hd : dfs nbrs fuel q g with
-      | none => simp [hd] at h
-      | some g1 =>
-        simp only [hd] at h
-        have h1 := dfs_spec nbrs fuel q g g1 hd
-        have h2 := dfsList_spec nbrs fuel rest g1 g' h
-        refine ⟨fun x hx => h2.mono x (h1.mono x hx), ?_, ?_, ?_⟩
-        · intro q' hq'
-          rcases List.mem_cons.mp hq' with rfl | hr
-          · exact h2.mono _ h1.self
-          · exact h2.all q' hr
-        · intro x hx
-          rcases h2.sound x hx with hx1 | ⟨q', hq', hr⟩
-          · rcases h1.sound x hx1 with hx0 | hr
-            · exact Or.inl hx0
-            · exact Or.inr ⟨q, List.mem_cons_self .., hr⟩
-          · exact Or.inr ⟨q', List.mem_cons_of_mem _ hq', hr⟩
-        · intro x hx hnx y hy
-          by_cases hx1 : x ∈ g1
-          · exact h2.mono y (h1.closed x hx1 hnx y hy)
-          · exact h2.closed x hx hx1 y hy
-end
+theorem dfsList_spec (nbrs : α → List α) (f : α → List α → Option (List α))
+    (hf : ∀ q g g', f q g = some g' → Spec nbrs q g g') :
+    ∀ (qs : List α) (g g' : List α), dfsList f qs g = some g' → SpecList nbrs qs g g'
+  | [], g, g', h => by
+    simp only [dfsList] at h; injection h with h; subst h
+    exact ⟨(fun x hx => hx), (fun q hq => by cases hq), (fun x hx => Or.inl hx), (fun x hx hnx => absurd hx hnx)⟩
+  | q :: rest, g, g', h => by
+    rw [dfsList] at h
+    cases hd : f q g with
+    | none => simp [hd] at h
+    | some g1 =>
+      simp only [hd] at h
+      have h1 := hf q g g1 hd
+      have h2 := dfsList_spec nbrs f hf rest g1 g' h
+      refine ⟨fun x hx => h2.mono x (h1.mono x hx), ?_, ?_, ?_⟩
+      · intro q' hq'
+        rcases List.mem_cons.mp hq' with rfl | hr
+        · exact h2.mono _ h1.self
+        · exact h2.all q' hr
+      · intro x hx
+        rcases h2.sound x hx with hx1 | ⟨q', hq', hr⟩
+        · rcases h1.sound x hx1 with hx0 | hr
+          · exact Or.inl hx0
+          · exact Or.inr ⟨q, List.mem_cons_self .., hr⟩
+        · exact Or.inr ⟨q', List.mem_cons_of_mem _ hq', hr⟩
+      · intro x hx hnx y hy
+        by_cases hx1 : x ∈ g1
+        · exact h2.mono y (h1.closed x hx1 hnx y hy)
+        · exact h2.closed x hx hx1 y hy
+
+theorem dfs_spec (nbrs : α → List α) : ∀ (fuel : Nat) (p : α) (g g' : List α), dfs nbrs fuel p g = some g' → Spec nbrs p g g'
+  | 0, _, _, _, h => by simp [dfs] at h
+  | fuel + 1, p, g, g', h => by
+    rw [dfs] at h
+    split at h
+    · rename_i hp
+      injection h with h; subst h
+      exact ⟨fun x hx => hx, hp, fun x hx => Or.inl hx, fun x hx hnx => absurd hx hnx⟩
+    · rename_i hp
+      have hl := dfsList_spec nbrs (dfs nbrs fuel) (dfs_spec nbrs fuel) (nbrs p) (g ++ [p]) g' h
+      refine ⟨fun x hx => hl.mono x (List.mem_append_left _ hx), hl.mono p (by simp), ?_, ?_⟩
+      · intro x hx
+        rcases hl.sound x hx with h1 | ⟨q, hq, hr⟩
+        · rcases List.mem_append.mp h1 with h2 | h2
+          · exact Or.inl h2
+          · simp at h2; subst h2; exact Or.inr (.refl x)
+        · exact Or.inr (.step hq hr)
+      · intro x hx hnx y hy
+        by_cases hxp : x = p
+        · subst hxp; exact hl.all y hy
+        · have : x ∉ g ++ [p] := by
+            intro hm
+            rcases List.mem_append.mp hm with h2 | h2
+            · exact hnx h2
+            · simp at h2; exact hxp h2
+          exact hl.closed x hx this y hy
 
 /-- **A group discovered from `p` on an empty start is exactly what is reachable from `p`.** -/
 theorem dfs_component (nbrs : α → List α) (fuel : Nat) (p : α) (g : List α) (h : dfs nbrs fuel p [] = some g) :
